@@ -235,3 +235,42 @@ inline rc::Gen<pw::FileSpec> specGen(const Opts &o) {
 }
 
 }  // namespace gf
+
+// ------------------------------------------------------------------------
+// Deterministic (seeded, no rapidcheck context) chunk content for enumerators.
+namespace gf {
+inline uint64_t dxs(uint64_t &s) { s ^= s << 13; s ^= s >> 7; s ^= s << 17; return s; }
+inline pw::ChunkSpec detChunk(const pw::Leaf &lf, size_t rows, uint64_t seed) {
+  pw::ChunkSpec cs;
+  uint64_t s = 0x9E3779B97F4A7C15ull ^ (seed * 2 + 1);
+  for (size_t r = 0; r < rows; r++) {
+    int d = (int)(dxs(s) % (uint64_t)(lf.max_def + 1));
+    if (dxs(s) % 3 == 0) d = lf.max_def;
+    if (lf.max_def) cs.def.push_back((int16_t)d);
+    if (lf.max_rep) cs.rep.push_back(0);
+    int more = lf.max_rep ? (int)(dxs(s) % 4) : 0;
+    for (int k = 0; k < more; k++) {
+      std::vector<int> allowed;
+      for (int q = 1; q <= lf.max_rep; q++) if (d >= lf.rep_def[(size_t)q - 1]) allowed.push_back(q);
+      if (allowed.empty()) break;
+      int q = allowed[dxs(s) % allowed.size()];
+      int lo = lf.rep_def[(size_t)q - 1];
+      d = lo + (int)(dxs(s) % (uint64_t)(lf.max_def - lo + 1));
+      cs.def.push_back((int16_t)d); cs.rep.push_back((int16_t)q);
+    }
+  }
+  cs.n = lf.max_def ? cs.def.size() : (lf.max_rep ? cs.rep.size() : rows);
+  size_t w = pw::fixed_width(lf.type, lf.type_length);
+  for (size_t i = 0; i < cs.n; i++) {
+    if (lf.max_def && cs.def[i] != lf.max_def) continue;
+    Bytes v;
+    if (lf.type == pq::BOOLEAN) v.push_back((uint8_t)(dxs(s) & 1));
+    else if (w) for (size_t k = 0; k < w; k++) v.push_back((uint8_t)(dxs(s) >> 32));
+    else { size_t L = dxs(s) % 6; for (size_t k = 0; k < L; k++) v.push_back((uint8_t)('a' + dxs(s) % 26)); }
+    cs.values.push_back(v);
+  }
+  if (cs.n) { pw::PageSpec pg; pg.end = cs.n; cs.pages.push_back(pg); }
+  cs.seed = (uint32_t)seed | 1;
+  return cs;
+}
+}  // namespace gf
